@@ -18,13 +18,15 @@ struct LibToRef {
     big: bool,
     scratch: Scratch,
 }
-// axes: texture(6) comp(3) crypto(3) listfile(2) shift version(2; thorough 4) sector_crc(1; thorough 2) attributes(1; thorough 3)
+// axes: texture(6) comp(3) crypto(3) listfile(2) shift version(2; thorough 4) sector_crc(2) attributes(1; thorough 3)
 impl LibToRef {
     fn new(tier: Tier) -> Self {
         let shifts: Vec<u16> = tier.pick(vec![0, 3], vec![0, 1, 2, 3, 4, 5, 6, 7, 8]);
         // thorough: the V3/V4 headers as well (the reference reads their classic hash/block tables), sector
         // checksums (one more sector-table entry, which the reference skips) and the (attributes) file
-        let radices = vec![6, 3, 3, 2, shifts.len() as u64, tier.pick(2, 4), tier.pick(1, 2), tier.pick(1, 3)];
+        // sector checksums are in the quick tier too: the stored size of a file must cover its checksum sector
+        // (a reader of the published format reads exactly the stored bytes of an entry)
+        let radices = vec![6, 3, 3, 2, shifts.len() as u64, tier.pick(2, 4), 2, tier.pick(1, 3)];
         LibToRef { shifts, radices, big: true, scratch: Scratch::new("c02a") }
     }
     fn decode(&self, i: u64) -> (Config, usize) {
@@ -283,7 +285,7 @@ fn build(name: &str, _arg: &str, tier: Tier) -> Box<dyn Space> {
 
 fn main() {
     let Mode::Supervisor(mut c) = start("C02", "exploration", build) else { return };
-    c.rule = "published subset (V1/V2, classic tables, none/zlib/bzip2, plain/encrypted/fix-key, no sector CRC): full product of the axes x 6 textures; each case cross-reads one archive holding one file per boundary length under colliding, directory-nested names. lib2ref: ArchiveBuilder writes, refimpl::mpqref parses strictly and extracts by name; ref2lib: mpqref writes (own probing, sector decisions, single-unit on/off), Archive reads. Non-trivial = archive produced; distinct by case.".into();
+    c.rule = "published subset (V1/V2, classic tables, none/zlib/bzip2, plain/encrypted/fix-key, sector checksums on/off): full product of the axes x 6 textures; each case cross-reads one archive holding one file per boundary length under colliding, directory-nested names. lib2ref: ArchiveBuilder writes, refimpl::mpqref parses strictly and extracts by name; ref2lib: mpqref writes (own probing, sector decisions, single-unit on/off), Archive reads. Non-trivial = archive produced; distinct by case.".into();
     c.assume("reference = /verif/harness/refimpl/src/mpqref.rs, written from the published format; zlib/bzip2 streams are handled by the flate2/bzip2 crates on the reference side (standard stream formats)");
     c.assume("the two writers may make different raw-vs-compressed choices; only decodability and content are compared");
     c.run_space("lib2ref", "");
